@@ -3,12 +3,14 @@
 package main
 
 import (
-	"os"
-	"net"
 	"encoding/base64"
 	"fmt"
+	"net"
 	"net/http"
 	"net/http/httptest"
+	"net/url"
+	"os"
+	"regexp"
 	"strings"
 	"testing"
 	"time"
@@ -16,6 +18,10 @@ import (
 	"github.com/oauth2-proxy/oauth2-proxy/v7/pkg/apis/options"
 	sessionsapi "github.com/oauth2-proxy/oauth2-proxy/v7/pkg/apis/sessions"
 )
+
+const vC01NegatedRoute = "^/(?:$|[a-z])"
+
+var vC01NegatedRe = regexp.MustCompile(vC01NegatedRoute)
 
 func init() { vDrivers["C01"] = driveC01 }
 
@@ -82,7 +88,8 @@ func driveC01(t *testing.T, out *vEmitter) {
 					// two audience claims, in this order: the first one present in a token decides
 					o.Providers[0].OIDCConfig.AudienceClaims = []string{"aud", "azp"}
 					if v.skipRoute {
-						o.SkipAuthRoutes = []string{"GET=^/public"}
+						// a positive rule and a negated one: "any method, unless the path is / or begins with a lower-case letter"
+						o.SkipAuthRoutes = []string{"GET=^/public", "!=" + vC01NegatedRoute}
 					}
 					if v.trustedIP {
 						// several networks of one family with different prefix lengths, the wider one first
@@ -185,6 +192,8 @@ func driveC01(t *testing.T, out *vEmitter) {
 				kind   string // proxy | authonly | userinfo | other
 			}
 			eps := []ep{{"/", "proxy"}, {"/nested/path?q=1", "proxy"}, {"/api/x", "proxy"}, {"/public/x", "proxy"}, {"/oauth2/auth", "authonly"},
+				// legal re-spellings of a protected path (an unreserved character percent-encoded), and a path the negated rule exempts
+				{"/%6eested/path", "proxy"}, {"/%61pi/x?q=%2Fpublic", "proxy"}, {"/Upper/x", "proxy"},
 				{"/oauth2/auth?allowed_groups=admins", "authonly"}, {"/oauth2/auth?allowed_groups=nobody", "authonly"}, {"/oauth2/userinfo", "userinfo"},
 				// lists in unusual but legal spellings: empty elements, empty value
 				{"/oauth2/auth?allowed_emails=boss@example.com,", "authonly"}, {"/oauth2/auth?allowed_emails=,alice@example.com", "authonly"},
@@ -197,32 +206,32 @@ func driveC01(t *testing.T, out *vEmitter) {
 				}
 			}
 			for pass := 0; pass < 2; pass++ {
-			for _, c := range creds {
-				for _, p := range eps {
-					if (p.kind == "other") != (pass == 1) {
-						continue
-					}
-					for _, method := range []string{"GET", "POST", "OPTIONS"} {
-						remotes := []string{"192.0.2.10:40000", "10.0.0.7:5555"}
-						if v.trustedIP && (c.label == "none" || c.label == "valid-cookie" || vThorough()) {
-							// inside the wider network's mask of a narrower trusted network, but not in it
-							remotes = append(remotes, "10.9.9.9:5555", "10.0.1.7:5555")
+				for _, c := range creds {
+					for _, p := range eps {
+						if (p.kind == "other") != (pass == 1) {
+							continue
 						}
-						for _, remote := range remotes {
-							for _, ajax := range []bool{false, true} {
-								if !vThorough() && (method != "GET" && (ajax || remote[0] == '1' && remote[1] == '0' && p.kind == "other")) {
-									continue
-								}
-								vC01Case(out, e, v, redis, c, p.target, p.kind, method, remote, ajax, false)
-								if v.preflight && !ajax && p.kind != "other" {
-									// a request that merely looks like a CORS preflight (headers) but is not OPTIONS
-									vC01Case(out, e, v, redis, c, p.target, p.kind, method, remote, ajax, true)
+						for _, method := range []string{"GET", "POST", "OPTIONS"} {
+							remotes := []string{"192.0.2.10:40000", "10.0.0.7:5555"}
+							if v.trustedIP && (c.label == "none" || c.label == "valid-cookie" || vThorough()) {
+								// inside the wider network's mask of a narrower trusted network, but not in it
+								remotes = append(remotes, "10.9.9.9:5555", "10.0.1.7:5555")
+							}
+							for _, remote := range remotes {
+								for _, ajax := range []bool{false, true} {
+									if !vThorough() && (method != "GET" && (ajax || remote[0] == '1' && remote[1] == '0' && p.kind == "other")) {
+										continue
+									}
+									vC01Case(out, e, v, redis, c, p.target, p.kind, method, remote, ajax, false)
+									if v.preflight && !ajax && p.kind != "other" {
+										// a request that merely looks like a CORS preflight (headers) but is not OPTIONS
+										vC01Case(out, e, v, redis, c, p.target, p.kind, method, remote, ajax, true)
+									}
 								}
 							}
 						}
 					}
 				}
-			}
 			}
 		}
 	}
@@ -362,7 +371,12 @@ func vC01Case(out *vEmitter, e *vEnv, v vC01Variant, redis bool, c vCred, target
 	if i := strings.Index(path, "?"); i >= 0 {
 		path = path[:i]
 	}
-	bypass := (v.preflight && method == "OPTIONS") || (v.skipRoute && method == "GET" && strings.HasPrefix(path, "/public")) ||
+	decoded := path
+	if u, err := url.PathUnescape(path); err == nil {
+		decoded = u // rules are matched against the decoded path
+	}
+	bypass := (v.preflight && method == "OPTIONS") || (v.skipRoute && method == "GET" && strings.HasPrefix(decoded, "/public")) ||
+		(v.skipRoute && !vC01NegatedRe.MatchString(decoded)) ||
 		(v.trustedIP && strings.HasPrefix(remote, "10.0.0."))
 	var vouched *vIdent
 	switch {
@@ -473,8 +487,9 @@ func vC01Case(out *vEmitter, e *vEnv, v vC01Variant, redis bool, c vCred, target
 		}
 		var routesSX, mt []vsx
 		if v.skipRoute {
-			routesSX = append(routesSX, vL(vS("GET"), vBool(false), vI(0)))
-			mt = append(mt, vL(vI(0), vS(req.URL.Path), vBool(strings.HasPrefix(req.URL.Path, "/public"))))
+			routesSX = append(routesSX, vL(vS("GET"), vBool(false), vI(0)), vL(vS(""), vBool(true), vI(1)))
+			mt = append(mt, vL(vI(0), vS(req.URL.Path), vBool(strings.HasPrefix(req.URL.Path, "/public"))),
+				vL(vI(1), vS(req.URL.Path), vBool(vC01NegatedRe.MatchString(req.URL.Path))))
 		}
 		var netsSX []vsx
 		if v.trustedIP {
